@@ -1584,6 +1584,9 @@ fn distinct_tokens_case(ctx: &mut Ctx, alg: Algorithm, req: &str, old: &str, new
             ctx.violation("C14", req, "text diff over more than 65536 distinct tokens panicked".to_string());
             ctx.violation("C04", req, "text diff over more than 65536 distinct tokens panicked: no changes to reconstruct the texts from".to_string());
             ctx.violation("C02", req, "text diff over more than 65536 distinct tokens panicked: no op list".to_string());
+            if alg != Algorithm::Patience {
+                ctx.violation("C03", req, "text diff over more than 65536 distinct tokens panicked: no script, minimal or not".to_string());
+            }
         }
         Ok((ops, direct, bad_equal)) => {
             if bad_equal {
@@ -1737,7 +1740,10 @@ fn wall_clock_cases(ctx: &mut Ctx) {
         }
         // the setters OVERRIDE each other: whichever of `deadline` / `timeout` was called last on one builder decides
         let hour = Duration::from_secs(3600);
-        let seqs: [(&str, &dyn Fn(&mut similar::TextDiffConfig), bool); 6] = [
+        let seqs: [(&str, &dyn Fn(&mut similar::TextDiffConfig), bool); 8] = [
+            // a timeout too long to be added to the clock means "no deadline", it must not overflow
+            ("timeout(Duration::MAX)", &|c| { c.timeout(Duration::MAX); }, false),
+            ("deadline(past) then timeout(u64::MAX seconds)", &|c| { c.deadline(past); c.timeout(Duration::from_secs(u64::MAX)); }, false),
             ("deadline(past) then timeout(1h)", &|c| { c.deadline(past); c.timeout(hour); }, false),
             ("timeout(1h) then deadline(past)", &|c| { c.timeout(hour); c.deadline(past); }, true),
             ("deadline(in 1h) then timeout(0)", &|c| { c.deadline(Instant::now() + hour); c.timeout(Duration::from_secs(0)); }, true),
